@@ -10,7 +10,7 @@ use purr_verif_harness::{coq_symbol, Rng};
 use std::collections::BTreeMap;
 
 const OMEGA: char = '~';
-const OUTSIDE: [char; 8] = [' ', 'Q', 'j', '\u{e9}', '\u{2028}', '\u{10FFFF}', '!', 'J'];
+const OUTSIDE: [char; 13] = [' ', 'Q', 'j', '\u{e9}', '\u{2028}', '\u{10FFFF}', '!', 'J', '\u{b2}', '\u{663}', '\u{bd}', '\u{ff12}', '\u{1d7d9}'];
 #[derive(Clone, PartialEq, Eq, Debug)]
 struct Obs { out: String, cursor: usize, eol: bool }   // out is already Coq syntax for `outcome`
 type Prod = dyn Fn(&mut Scanner) -> Result<Option<String>, Error>;
